@@ -100,9 +100,9 @@ def headerFH (h : HeaderV) : String := s!"{headerF h},hash={toHex h.blockHash}"
 def blockFH (b : BlockV) : String := s!"v={sl b.slice},total={b.totalTxs},hdr=({headerF b.header}),hash={toHex b.blockHash}"
 
 def eventS : Event → String
-  | .blockHeader h => s!"hdr({headerF h})"
+  | .blockHeader h => s!"hdr({headerFH h})"
   | .blockBegin n => s!"bb({n})"
-  | .transaction t => s!"tx({txF t})"
+  | .transaction t => s!"tx({txFH t})"
   | .txIns n => s!"ins({n})"
   | .txIn i v => s!"in({i};{txInF v})"
   | .txOuts n => s!"outs({n})"
